@@ -1,14 +1,38 @@
 PROP = {
-    "claim": "Proof (partial, see assumptions): invariants of the control skeleton of Core::update/run_interp/handle_interrupt over arbitrary "
-             "event lists (no dispatch while IME is off or pending, EI delay, DI/RETI immediacy, HALT/STOP suspension) + all sequences up "
-             "to length 3 (thorough 5) over the 8-instruction alphabet x 9 IME/run states x 4 pending patterns and random longer ones, "
-             "replayed step by step on the model and on the step spec (SM83 + IME rule + dispatch spec).",
-    "note": "Trusted: Lean kernel, harness/driver. Spec = SM83.step + the EI/DI/RETI/HALT rules of the property text + C07 dispatch. "
-            "HALT executed while an enabled interrupt is already pending is excluded as the property says.",
-    "technique": "Lean 4 invariants by induction over event lists + bounded-exhaustive differential of instruction sequences",
+    "claim": "Proof: over the Lean model of Core::update / run_interp / handle_interrupt (instruction-stepped build), for ANY "
+             "device function and from ANY core state - hence at every step of any instruction sequence: "
+             "(no_dispatch_when_ime_off, no_dispatch_in_step, no_dispatch_in_halted_step, dispatch_only_when_enabled) when the "
+             "master enable is not Enabled at the interrupt check, the step changes neither PC/SP/registers nor IF/IE/memory, "
+             "whatever is pending, and a dispatch implies IME = Enabled and a pending request after the catch-up; "
+             "(ei_no_dispatch_this_step, ei_effective_after_next, ei_takes_effect_after_next) EI from Disabled only schedules the "
+             "enable (EnableNext) and the EI step dispatches nothing; when the following instruction completes IME is Enabled unless "
+             "that instruction is DI, and a request pending then is dispatched at the end of that step (two-step theorem); "
+             "(di_immediate) after a DI step IME is Disabled and nothing was dispatched, even if an EI was pending; "
+             "(reti_immediate) RETI enables before the interrupt check of its own step; (halt_enters, halt_suspends, "
+             "halt_suspends_n) HALT/STOP enter the suspended state; a suspended step with nothing pending after the catch-up "
+             "executes no instruction: all registers, IME and run state unchanged, 4 clocks, 1 cycle - and so for any number of "
+             "steps; (halt_resumes, halt_pc) a pending enabled request wakes the CPU: with IME off all registers are unchanged and "
+             "the next step is run_interp at the unchanged PC, the address after HALT; with IME on the step ends in a dispatch; "
+             "(update_refines_spec_partial) GIVEN the instruction-level refinement InstrRefines as an explicit hypothesis, a model "
+             "step with time-only devices is a step of the step spec CoreSpec.step (SM83.step + IME rule + C07 dispatch spec) under "
+             "the abstraction absS, and well-formedness is kept. The model is tied to emulator.rs by the c08 stream: all sequences "
+             "up to length 3 (thorough 5) over the 8-instruction alphabet x 9 IME/run states x 4 pending patterns and random longer "
+             "ones, replayed step by step on the model and on the step spec.",
+    "note": "Trusted: Lean kernel, harness/driver, hand-written models validated by differential runs only. Spec = SM83.step + the "
+            "EI/DI/RETI/HALT rules of the property text + C07 dispatch. HALT executed while an enabled interrupt is already "
+            "pending is excluded as the property says (halt_enters assumes nothing pending after the catch-up). InstrRefines is "
+            "the composition of C05.step_refines_impl (proved) with the fetch-view lemma of C10 and byte-valuedness / "
+            "well-formedness preservation of the bus model across an instruction's writes (not composed).",
+    "technique": "Lean 4 proofs: the step skeleton taken apart (execute / status / catch-up / interrupt check) for an arbitrary "
+                 "device function, 3x6 IME-status table by computation, refinement to the step spec through C07's dispatch_spec; "
+                 "bounded-exhaustive differential of instruction sequences",
     "streams": [{"name": "c08", "shards": {"quick": 2, "thorough": 16}}],
-    "modules": ["GbVerif.Model.Core", "GbVerif.Spec.CoreSpec", "GbVerif.Spec.Interrupt"],
+    "modules": ["GbVerif.Model.Core", "GbVerif.Spec.CoreSpec", "GbVerif.Spec.Interrupt", "GbVerif.Proofs.CoreIrq",
+                "GbVerif.Proofs.CoreCycles", "GbVerif.Proofs.CoreStep", "GbVerif.Proofs.CoreRefine"],
     "rule": "all 8^<=3 (thorough 8^<=5) sequences x 3 IME x 3 run x 4 IF/IE patterns + 500 (20000) random sequences of length 4..12; "
             "non-trivial = a dispatch happened or the CPU was suspended at some step",
-    "assumptions": ["sequence-level theorems pending (proof agent)"],
+    "assumptions": ["update_refines_spec_partial: InstrRefines (instruction-level refinement incl. fetch view = bus read and "
+                    "preservation of bus well-formedness) is a hypothesis of the theorem",
+                    "the block-stepped (jit) build has no EI delay (run_code_block enables at once): C08 is stated for the "
+                    "instruction-stepped build, as the property is (\"executed one instruction at a time\")"],
 }
